@@ -6,7 +6,7 @@
    The relocation step itself is proved (C11_relocation_keeps_runs, C11_resize_keeps_runs); what is missing for the full statement
    is their composition through the retry loops of _fsm_blk_allocate_lw, _fsm_trim_tail_lw and _fsm_clear (first-time layout).
    Not proved: trim_to_last_used, clear_is_init - checked by T2 and the oracle only. *)
-Require Import ZArith List Bool. Require Import IW.Lib.CInt IW.Gen.Facts IW.FS.Bits IW.FS.Bits_proofs IW.FS.Fsm IW.FS.Fsm_proofs.
+Require Import ZArith List Bool. Require Import IW.Lib.CInt IW.Gen.Facts IW.FS.Bits IW.FS.Bits_proofs IW.FS.Fsm IW.FS.Fsm_hdr_proofs IW.FS.Fsm_proofs.
 Import ListNotations. Local Open Scope Z_scope.
 
 (* _fsm_load_fsm_lw (byte-wise scan with the 0x00 / 0xff shortcuts) emits exactly the maximal zero runs, all bitmaps *)
@@ -22,7 +22,7 @@ Theorem C11_load_builds_tree : forall s, len_z (bm s) = nbits s -> nbits s <= FS
 Proof. exact load_fsm_spec. Qed.
 Print Assumptions C11_load_builds_tree.
 
-Theorem C11_tree_is_runs_partial : forall ops s, Good s -> ok_run s ops ->
+Theorem C11_tree_is_runs_partial : forall ops s, Good s -> hdr_current s = true -> ok_run s ops ->
   forall o n, In (n, o) (tree (run s ops)) <-> is_run (bm (run s ops)) o n.
 Proof. exact tree_is_runs_partial. Qed.
 Print Assumptions C11_tree_is_runs_partial.
@@ -43,7 +43,64 @@ Proof.
 Qed.
 Print Assumptions C11_release_merges.
 
-Theorem C11_reopen_same : forall s st mm, len_z (bm s) = nbits s -> nbits s <= FSM_BKEY_MAX -> WF s -> fx_lfbk (vr s) = true ->
+(* What the next open is told.  The model keeps what _fsm_write_meta_lw wrote last ([p_bmoff], [p_bmlen]: bitmap offset and
+   length in the file header); [reopen] takes the bitmap area from THERE, and [close] writes the header in exactly the
+   cases _fsm_close does: only when the free-extent tree is not empty (after the trim, if any).  A file without a single
+   free block is closed without any header write - it reopens correctly only because every path that moves the bitmap
+   (_fsm_init_lw from growth, trim, clear) has written the header before returning.  That is proved for EVERY state and
+   EVERY operation, bitmap growth included (no invariant, no _partial): *)
+Theorem C11_header_current_step : forall s o, hdr_current s = true ->
+  (forall tr, o = OClear tr -> fst (clear s tr) = 0) -> hdr_current (state_of (step s o)) = true.
+Proof. intros s o H Hc. apply hs_iff. apply hs_step; [apply hs_iff; exact H|exact Hc]. Qed.
+Print Assumptions C11_header_current_step.
+
+(* ... and without the proviso on clear: "no bitmap at all (bmlen = 0, the state a failed clear leaves) or header current"
+   holds along every history of operations whatsoever *)
+Theorem C11_header_names_bitmap : forall ops s, HdrOk s -> HdrOk (run s ops).
+Proof. exact hdr_ok_run. Qed.
+Print Assumptions C11_header_names_bitmap.
+
+Theorem C11_new_file_header_current : forall v bp hl bl st, fst (open_new v bp hl bl st) = 0 ->
+  hdr_current (snd (open_new v bp hl bl st)) = true.
+Proof. intros. apply hs_iff. apply hs_open_new. assumption. Qed.
+Print Assumptions C11_new_file_header_current.
+
+(* the three cases of _fsm_close *)
+Theorem C11_close_writes_header_iff_free_space : forall s notrim,
+  (tree s = [] /\ close s notrim = (0, s)) \/
+  (tree s <> [] /\ notrim = true /\ close s notrim = (0, write_meta s)) \/
+  (tree s <> [] /\ notrim = false /\ close s notrim = (fst (trim_tail s), write_meta (snd (trim_tail s)))).
+Proof. exact close_cases. Qed.
+Print Assumptions C11_close_writes_header_iff_free_space.
+
+(* reopen sees the state at close: trim and no-trim, free space or none *)
+Theorem C11_reopen_sees_close : forall s notrim st mm, (tree s = [] -> hdr_current s = true) ->
+  let s1 := snd (close s notrim) in let r := reopen s1 st mm in
+  bm r = bm s1 /\ bmoff r = bmoff s1 /\ bmlen r = bmlen s1 /\ hdrlen r = hdrlen s1 /\ bpow r = bpow s1 /\ fsize r = fsize s1.
+Proof. intros s notrim st mm H. apply reopen_sees_close. intros Ht. apply hs_iff. apply H. exact Ht. Qed.
+Print Assumptions C11_reopen_sees_close.
+
+(* the full file, spelled out: close does nothing, the next open finds the same bitmap at the same place *)
+Theorem C11_full_file_close_reopen : forall s notrim st mm, tree s = [] -> hdr_current s = true ->
+  close s notrim = (0, s) /\
+  bm (reopen s st mm) = bm s /\ bmoff (reopen s st mm) = bmoff s /\ bmlen (reopen s st mm) = bmlen s /\
+  hdrlen (reopen s st mm) = hdrlen s /\ bpow (reopen s st mm) = bpow s /\ fsize (reopen s st mm) = fsize s.
+Proof. intros s notrim st mm Ht H. apply full_file_close_reopen; [exact Ht|apply hs_iff; exact H]. Qed.
+Print Assumptions C11_full_file_close_reopen.
+
+(* a reachable instance (corpus/C11/full-file-after-relocation.txt is the same script on the implementation): new file,
+   one allocation the 32768-block bitmap cannot hold (the bitmap doubles and moves to byte 8192, the old area is released), every remaining
+   free run taken, no sync: the tree is empty, the bitmap is at its second place, the header says so, and after close +
+   reopen (trim mode on) 65536 blocks are known, all of them allocated *)
+Example C11_full_file_after_relocation :
+  let s := relocated_full_state in
+  tree s = [] /\ (bmoff s, bmlen s) = (8192, 8192) /\ hdr_current s = true /\
+  (let r := state_of (step s (OCloseReopen false false false)) in
+   (bmoff r, bmlen r, tree r) = (8192, 8192, []) /\ bm r = bm s).
+Proof. exact full_file_after_relocation. Qed.
+
+Theorem C11_reopen_same : forall s st mm, hdr_current s = true ->
+  len_z (bm s) = nbits s -> nbits s <= FSM_BKEY_MAX -> WF s -> fx_lfbk (vr s) = true ->
   Good (reopen s st mm) /\ bm (reopen s st mm) = bm s /\ bmoff (reopen s st mm) = bmoff s /\
   bmlen (reopen s st mm) = bmlen s /\ hdrlen (reopen s st mm) = hdrlen s /\ bpow (reopen s st mm) = bpow s /\
   (forall o n, In (n, o) (tree (reopen s st mm)) <-> is_run (bm s) o n).
